@@ -218,3 +218,74 @@ TRUSTED_BASE = R.TRUSTED_BASE + [
     'CdnsBlockRead::read_blocktables, BlockPreamble::read, BlockStatistics::read, QueryResponse::read, ...: consume exactly one item (r.* units; read_blocktables itself is not under contract)',
     'A8 std::unordered_map: operator[] inserts at most one entry']
 ASSUMPTIONS = R.ASSUMPTIONS + ['fewer than 2^60 items per block']
+
+# ---------------------------------------------------------------- presentation of a stored record: fill_generic_*_list, read_generic_qr (C01, C03)
+import block_units as BU
+GETTER_STUBS = []
+for nm, tab, rec, sub in BU.ACCESS:
+    rt = {'data': 'cstring', 'list': 'struct seq_u32'}.get(sub, 'struct ' + rec)
+    GETTER_STUBS.append((r'^CdnsBlock__get_%s$' % nm, '''  static %(rt)s zero;
+  if (g_exc) return zero;
+  if ((unsigned long)$P1 >= $P0->%(tab)s.n) { g_exc = EXC_runtime_error; return zero; }   /* executable form of the blk.get_%(nm)s contract */
+  return bt_%(rec)s__at(&$P0->%(tab)s, $P1)->%(sub)s;''' % {'rt': rt, 'tab': tab, 'rec': rec, 'nm': nm, 'sub': sub} if sub else
+                         '''  static %(rt)s zero;
+  if (g_exc) return zero;
+  if ((unsigned long)$P1 >= $P0->%(tab)s.n) { g_exc = EXC_runtime_error; return zero; }   /* executable form of the blk.get_%(nm)s contract */
+  return *bt_%(rec)s__at(&$P0->%(tab)s, $P1);''' % {'rt': rt, 'tab': tab, 'rec': rec, 'nm': nm}))
+BTCURS = 'bt_StringItem__cur, bt_ClassType__cur, bt_QueryResponseSignature__cur, bt_IndexListItem__cur, bt_Question__cur, bt_RR__cur, bt_MalformedMessageData__cur'
+OPTEQ = lambda a, b: '(((%s.has != 0) == (%s.has != 0)) && (!%s.has || %s.val == %s.val))' % (a, b, b, a, b)
+TB = '$this->base.'
+
+
+def fill_rel(kind, ret, this):
+    b = this + '->base.'
+    item, tab = ('RR', 'm_rr') if kind == 'rr' else ('Question', 'm_qrr')
+    src = b + tab + '.wv'
+    rel = '(%(s)s.name_index == %(b)sm_name_rdata.wi ==> (%(r)s.wv.name.id == %(b)sm_name_rdata.wv.data.id && %(r)s.wv.name.len == %(b)sm_name_rdata.wv.data.len))' \
+          ' && (%(s)s.classtype_index == %(b)sm_classtype.wi ==> (%(r)s.wv.classtype.type == %(b)sm_classtype.wv.type && %(r)s.wv.classtype.class_ == %(b)sm_classtype.wv.class_))' % {'s': src, 'b': b, 'r': ret}
+    if kind == 'rr':
+        rel += ' && ' + OPTEQ(ret + '.wv.ttl', src + '.ttl') + ' && ((%s.wv.rdata.has != 0) == (%s.rdata_index.has != 0))' % (ret, src)
+        rel += ' && ((%(s)s.rdata_index.has && %(s)s.rdata_index.val == %(b)sm_name_rdata.wi) ==> %(r)s.wv.rdata.val.id == %(b)sm_name_rdata.wv.data.id)' % {'s': src, 'b': b, 'r': ret}
+    return rel
+
+
+def fill_contract(kind):
+    item, tab = ('RR', 'm_rr') if kind == 'rr' else ('Question', 'm_qrr')
+    return '''
+__CPROVER_requires(__CPROVER_r_ok($this, sizeof(*$this)) && __CPROVER_r_ok($1, sizeof(*$1)) && g_exc == 0 && $1->n < (1UL << 60))
+__CPROVER_assigns(''' + BTCURS + ''', seq_u32__cur, g_exc)
+__CPROVER_ensures(g_exc == 0 || g_exc == EXC_runtime_error)
+__CPROVER_ensures(g_exc == 0 ==> $ret.n == $1->n)
+__CPROVER_ensures((g_exc == 0 && $ret.wi < $ret.n && $ret.wi == $1->wi && (unsigned long)$1->wv == %(tab)s.wi) ==> (%(rel)s))
+''' % {'tab': TB + tab, 'rel': fill_rel(kind, '$ret', '$this')}
+
+
+def fill_loops(kind):
+    def gen(ast, L, tf):
+        if len(tf.loopinfo) != 1:
+            raise LowerError('%s: expected one range-for' % tf.cname)
+        k, info = list(tf.loopinfo.items())[0]
+        lst = [n for n, t in tf.locals if t == 'struct seq_GenericResourceRecord']
+        if len(lst) != 1:
+            raise LowerError('%s: result list local not found' % tf.cname)
+        rel = fill_rel(kind, lst[0], 'this')
+        item, tab = ('RR', 'm_rr') if kind == 'rr' else ('Question', 'm_qrr')
+        i = info['counter']
+        locs = ', '.join(n for n, t in tf.locals if n not in (lst[0],) and not n.startswith('__i'))
+        return {k: '''
+  __CPROVER_assigns(%(i)s, %(l)s, %(curs)s, seq_u32__cur, g_exc)
+  __CPROVER_loop_invariant(g_exc == 0 && %(i)s <= list->n && %(l)s.n == %(i)s && %(l)s.wi == __CPROVER_loop_entry(%(l)s.wi))
+  __CPROVER_loop_invariant((%(l)s.wi < %(i)s && %(l)s.wi == list->wi && (unsigned long)list->wv == this->base.%(tab)s.wi) ==> (%(rel)s))
+  __CPROVER_decreases(list->n - %(i)s)
+''' % {'i': i, 'l': lst[0], 'locs': locs, 'curs': BTCURS, 'tab': tab, 'rel': rel}}
+    return gen
+
+
+RG_STUBS = ['BlockTable_[A-Za-z]+__(size|op_index)', 'seq_[A-Za-z0-9_]+__(push_back|clear|size|at|reserve|empty)', 'cstring__[a-z]+', 'opt_[A-Za-z0-9_]+__value']
+for kind, fn in (('rr', 'fill_generic_rr_list'), ('q', 'fill_generic_q_list')):
+    UNITS.append(Unit('rdb.' + fn, ('CdnsBlockRead::' + fn, None), contract=fill_contract(kind), loops=fill_loops(kind), prelude=P, extern_records=R.EXT,
+                      stubs=RG_STUBS, gen_stubs=GETTER_STUBS, arrays_uf=False, auto_inline=AUTO,
+                      setup='  static struct CdnsBlockRead obj; static struct seq_u32 lst;\n  __CPROVER_assume(lst.n < (1UL << 60));\n', args=['&obj', '&lst'],
+                      props=['C01', 'C03'], timeout=900, post='  if (g_exc != 0) { CANARY("out-of-range index reachable"); }',
+                      note='list of any length holding any indices (e.g. read from a file): every table is reached only through the bounds-checked accessors; '
+                           'one output record per list entry, in order; name, class/type, TTL and RDATA of the watched entry are the table entries the indices denote'))
